@@ -339,7 +339,8 @@ func TestVerifC13(t *testing.T) {
 		wends := []string{"*", "0", "9000000000000000000", "9223372036854775807", "-9223372036854775808", "18446744073709551615", "1e19", "-1e19"}
 		wtoks := []string{"9223372036854775807", "9223372036854775808", "9999999999999999999", "-9223372036854775808", "-9223372036854775809",
 			"-9999999999999999999", "18446744073709551615", "18446744073709551616", "99999999999999999999", "-99999999999999999999",
-			"1e19", "100", "-5", "0", "4611686018427387904", "999999999999999999", "1000000000000000000", "+9999999999999999999", "x"}
+			"1e19", "100", "-5", "0", "4611686018427387904", "999999999999999999", "1000000000000000000", "+9999999999999999999", "x",
+			"1.7976931348623157e308", "-1.7976931348623157e308", "5e-324"} // the largest and the smallest float64
 		wsorted := append([]string{}, wtoks...)
 		sort.Strings(wsorted)
 		for _, f := range wends {
